@@ -25,7 +25,9 @@ LEVELS = "K6 (real ServiceDaemon thread under verif-hooks; observation = get_met
 RULE = ("histories on one daemon: browse / stop_browse of 1-3 types (one with a subtype), resolve_hostname / stop with "
         "timeouts, get_metrics sampled along the way; traffic mixes: announcements for browsed types, answers for types "
         "nobody browses, PTR-less SRV/TXT/A/AAAA/NSEC for streams of distinct names (10^3 quick, 10^4 thorough), records "
-        "piggy-backed on a wanted PTR, repeated identical announcements, goodbyes, cache-flush; horizons beyond every TTL "
+        "piggy-backed on a wanted PTR, repeated identical announcements, goodbyes, cache-flush; one owner name receiving "
+        "SRV / TXT / NSEC records with different RDATA and overlapping short lifetimes for several TTLs (with and without a "
+        "browse); horizons beyond every TTL "
         "with two final samples; non-trivial = at least two samples and one delivered record; distinct = distinct case lines")
 TRUSTED = [
     "Coq 8.16.1 kernel (coqc)",
@@ -308,6 +310,45 @@ def stream(rng, hid, names, browse):
     return g.history()
 
 
+def variants(rng, hid, kind, browse, n, ttl, gap):
+    """ONE owner name that keeps receiving records with different RDATA and overlapping lifetimes
+    (SRV with a new port / TXT with a new text / NSEC with a new bitmap in every packet, TTL of a
+    few seconds, `gap` ms apart, for several TTLs): per-record eviction makes the counter plateau at
+    about ttl*1000/gap; with and without a browse that needs the instance."""
+    g = Gen(rng, hid, ifaces=[L.IF2_V4])
+    ty = TYPES[0]
+    inst = "alpha.%s" % ty
+    host = "alpha-host.local."
+    first = {"t": g.t, "d": 0, "calls": [{"op": "set_ip_check_interval", "secs": 0}, g.met()]}
+    if browse:
+        first["calls"].append({"op": "browse", "ty": ty, "ch": "b1"})
+        g.browsed.append(ty)
+    g.steps.append(first)
+    if browse:
+        g.t += 20
+        # PTR first, then SRV and (after it, so that it is needed on arrival) the address
+        g.steps.append({"t": g.t, "d": 0, "dgrams": [g.dgram([L.rec_ptr(1, ty, inst, 4500)])]})
+        g.t += 20
+        g.steps.append({"t": g.t, "d": 0, "dgrams": [g.dgram([L.rec_srv(1, inst, host, 4500, port=80),
+                                                              L.rec_addr(1, host, "192.168.1.40", 4500)])]})
+    for k in range(n):
+        g.t += gap
+        if kind == "srv":
+            rec = L.rec_srv(1, inst, host, ttl, port=1000 + k)
+        elif kind == "txt":
+            rec = L.rec_txt(1, inst, bytes([3]) + b"k=" + bytes([48 + k % 75]) + bytes([2]) + b"v" + bytes([48 + (k // 75) % 75]), ttl)
+        else:
+            rec = L.rec_nsec(1, host, ttl, bitmap=bytes([k % 256, 1 + k // 256]))
+        st = {"t": g.t, "d": 0, "dgrams": [g.dgram([rec])]}
+        if k % 4 == 3:
+            st["calls"] = [g.met()]
+        g.steps.append(st)
+    g.t += 100
+    g.steps.append({"t": g.t, "d": 0, "calls": [g.met()]})
+    g.finish()
+    return g.history()
+
+
 def repeats(rng, hid, n):
     """One wanted record announced again and again."""
     g = Gen(rng, hid, ifaces=[L.IF2_V4])
@@ -392,6 +433,13 @@ def generate(rng, tier):
         cases.append(Case(L.dumps(clean(rng, "c%d" % i, rng.choice([4, 8, 14]))), "clean"))
     for i, names in enumerate([200, 1000, 2000] if quick else [200, 1000, 3000, 10000]):
         cases.append(Case(L.dumps(stream(rng, "s%d" % i, names, browse=i % 2 == 1)), "stream-%d" % names))
+    i = 0
+    for kind in ("srv", "txt", "nsec"):
+        for browse in (False, True):
+            for (ttl, gap, cnt) in ([(2, 250, 32), (3, 500, 30)] if quick else [(2, 250, 32), (3, 500, 30), (5, 200, 120), (1, 300, 20)]):
+                cases.append(Case(L.dumps(variants(rng, "v%d" % i, kind, browse, cnt, ttl, gap)),
+                                  "variants-%s%s" % (kind, "-browse" if browse else "")))
+                i += 1
     for i, k in enumerate([30, 200] if quick else [30, 200, 1000]):
         cases.append(Case(L.dumps(repeats(rng, "r%d" % i, k)), "repeats-%d" % k))
     return cases
